@@ -849,6 +849,34 @@ func specialPDFs(kind string) ([][]byte, error) {
 			return nil, err
 		}
 		out = append(out, b)
+	case "ladder-kids", "ladder-dict":
+		// a reference graph without a cycle that is not a tree either: every level names the next level TWICE. A walk
+		// that only refuses its own ancestors visits 2^depth nodes (28 levels here); it has to remember what it has seen
+		// or bound its work some other way.
+		const depth = 28
+		f := &pdfw.File{EOL: "lf"}
+		its := []pdfw.Item{{Num: 1, Val: pdfw.Dict{{"Type", pdfw.Name("Catalog")}, {"Pages", pdfw.Ref{Num: 2}}, {"Extra", pdfw.Ref{Num: 100}}}}}
+		leaf := pdfw.Dict{{"Type", pdfw.Name("Page")}, {"Parent", pdfw.Ref{Num: 2}}, {"MediaBox", pdfw.Arr{pdfw.Int(0), pdfw.Int(0), pdfw.Int(100), pdfw.Int(100)}}}
+		if kind == "ladder-kids" {
+			for k := 0; k < depth; k++ {
+				next := pdfw.Ref{Num: 3 + k}
+				its = append(its, pdfw.Item{Num: 2 + k, Val: pdfw.Dict{{"Type", pdfw.Name("Pages")}, {"Kids", pdfw.Arr{next, next}}, {"Count", pdfw.Int(2)}}})
+			}
+			its = append(its, pdfw.Item{Num: 2 + depth, Val: leaf}, pdfw.Item{Num: 100, Val: pdfw.Dict{}})
+		} else {
+			its = append(its, pdfw.Item{Num: 2, Val: pdfw.Dict{{"Type", pdfw.Name("Pages")}, {"Kids", pdfw.Arr{pdfw.Ref{Num: 3}}}, {"Count", pdfw.Int(1)}}}, pdfw.Item{Num: 3, Val: leaf})
+			for k := 0; k < depth; k++ {
+				next := pdfw.Ref{Num: 101 + k}
+				its = append(its, pdfw.Item{Num: 100 + k, Val: pdfw.Dict{{"A", next}, {"B", pdfw.Arr{next, pdfw.Int(k)}}}})
+			}
+			its = append(its, pdfw.Item{Num: 100 + depth, Val: pdfw.Dict{{"End", pdfw.Int(1)}}})
+		}
+		f.Revs = []pdfw.Revision{{XRef: "table", Root: pdfw.Ref{Num: 1}, Items: its}}
+		b, _, err := f.Bytes()
+		if err != nil {
+			return nil, err
+		}
+		out = append(out, b)
 	default:
 		return nil, fmt.Errorf("unknown special %s", kind)
 	}
